@@ -4,6 +4,8 @@
 //!        rdv --probe <name> <args...>      (subprocess probes; may crash by design)
 
 mod core;
+mod explore;
+mod world;
 mod fixture;
 mod httpfake;
 mod refb;
@@ -12,7 +14,9 @@ mod strings;
 mod c03;
 mod c04;
 mod c05;
+mod c06;
 mod c07;
+mod c10;
 mod c15;
 mod c16;
 mod c17;
@@ -76,7 +80,9 @@ fn main() {
             "C03" => c03::replay(&ctx, &v["replay"]),
             "C04" => c04::replay(&ctx, &v["replay"]),
             "C05" => c05::replay(&ctx, &v["replay"]),
+            "C06" => c06::replay(&ctx, &v["replay"]),
             "C07" => c07::replay(&ctx, &v["replay"]),
+            "C10" => c10::replay(&ctx, &v["replay"]),
             "C15" => c15::replay(&ctx, &v["replay"]),
             "C16" => c16::replay(&ctx, &v["replay"]),
             "C17" => c17::replay(&ctx, &v["replay"]),
@@ -92,7 +98,9 @@ fn main() {
         "C03" => c03::run(&ctx),
         "C04" => c04::run(&ctx),
         "C05" => c05::run(&ctx),
+        "C06" => c06::run(&ctx),
         "C07" => c07::run(&ctx),
+        "C10" => c10::run(&ctx),
         "C15" => c15::run(&ctx),
         "C16" => c16::run(&ctx),
         "C17" => c17::run(&ctx),
